@@ -305,7 +305,7 @@ func init() {
 // can be corrected and retried" on the real OS transports (engine R): the
 // failure is provoked, corrected, and the retried endpoint must carry traffic.
 func c12Real(w *W) {
-	tran := []string{"tcp", "tls+tcp", "ipc", "ws", "wss"}[w.Choose(simrt.SShape, 5)]
+	tran := w.simFallback([]string{"tcp", "tls+tcp", "ipc", "ws", "wss"}[w.Choose(simrt.SShape, 5)])
 	side := []string{"listen-config", "listen-inuse", "dial-refused"}[w.Choose(simrt.SShape, 3)]
 	w.SetShape("tran", tran)
 	w.SetShape("case", side)
